@@ -62,6 +62,7 @@ type DocState struct {
 	GsLast    string
 	Dropped   int
 	Sigma     tla.Rec
+	Partial   [][]string // rows already written when the call fails (iterator generator), Layer M
 }
 
 func docStateOf(st *tla.State) *DocState {
@@ -90,6 +91,7 @@ func docStateOf(st *tla.State) *DocState {
 	d.GsLast = tla.S(gs["last"])
 	d.Dropped = len(gs["dropped"].(tla.Set))
 	d.Sigma = tla.R(st.Get("sigma"))
+	d.Partial = tla.Lines(st.Get("partial"))
 	return d
 }
 
